@@ -89,18 +89,21 @@ Definition judge_sfs (t : sform) (v : sval) (r1 : result json) (r2 : option (res
 
 (* typed values (observation stream): x = from_bytes(case), y = from_json(to_json(x)).
    [first]: 0 = to_json and from_json succeeded, 1 = to_json failed, 2 = from_json failed.
-   - y (maps filled in ascending order, default encodings) must round-trip exactly ([fx]);
-   - x == y, or x and y differ only in the order of map entries ([norm]: premise of the property not met), or
-     the difference is explained by a known class: 3 = C17-plutus-script-language-lost (x holds a Plutus V2/V3 script:
-     the JSON form of a PlutusScript is its bytes only), 4 = C17-metadatum-int-below-i64-min (to_json fails). *)
-Definition judge_ty (first : N) (eq bytes norm fx lang negint : bool) : verdict :=
+   - y (maps filled in ascending order, default encodings) must round-trip exactly: ==, to_bytes, JSON text ([fx]);
+   - x == y unless the premise of the property is not met ([unsorted]: an insertion-ordered map of x that the JSON
+     form writes sorted - Withdrawals, ProposedProtocolParameterUpdates, GeneralTransactionMetadata,
+     AuxiliaryDataSet - is not ascending; then the CBOR content must still agree up to map-entry order or be
+     explained by a class) or the difference is a known class: 3 = C17-plutus-script-language-lost (x holds a Plutus
+     V2/V3 script: the JSON form of a PlutusScript is its bytes only), 4 = C17-metadatum-int-below-i64-min (to_json fails);
+   - equal to_bytes imply ==. *)
+Definition judge_ty (first : N) (eq bytes norm fx lang negint unsorted : bool) : verdict :=
   match first with
   | 0 =>
       if negb fx then Fails 0
       else if eq then Holds
-      else if bytes then Fails 0          (* same bytes but not == *)
-      else if norm then NA
+      else if bytes then Fails 0
       else if lang then Fails 3
+      else if unsorted then NA
       else Fails 0
   | 1 => if negint then Fails 4 else Fails 0
   | _ => Fails 0
